@@ -71,7 +71,7 @@ for (n, d, f, shapes) in [
     ("c02_l1_move_", "reserve(end) + move_region + take_reserved: old extent becomes pending, region keyed at the reserved target, reservation consumed, len() accounts for the reservation",
      ["rawdb::Layout::{reserve,take_reserved,move_region,insert_region}"], "RHR RRPH HR"),
 ]:
-    reg(H(n, "rawdb", "C02", mem=8, timeout=1500, group=True, desc=d + " [shapes: " + shapes + "]",
+    reg(H(n, "rawdb", "C02", mem=8, timeout=3000, group=True, desc=d + " [shapes: " + shapes + "]",
           bounds=L1B, functions=f, stubs=[FMT], also=("C01", "C05", "C10", "C12"),
           quick_for={"c02_l1_last_": {"C02", "C05", "C10", "C12"}, "c02_l1_promote_": {"C02", "C01", "C05", "C10", "C12"},
                      "c02_l1_find_": {"C02"}, "c02_l1_compress_": {"C02"}, "c02_l1_remove_": {"C02"},
